@@ -11,7 +11,7 @@ func init() { Registry["C08"] = C08 }
 
 // C08: skip / skipAfter / allow / chain steer evaluation exactly as documented.
 func C08(run *vf.Run) {
-	run.Rule = "TLC enumerates every rule list of N slots over the flow-control templates (plain, skip:1/2, skipAfter:M, SecMarker M, allow, allow:phase, allow:request, deny, deny+skip:1, deny+skipAfter:M; each optionally a chain) x phases x every subset of rules/chain links made to match x engine mode, plus the markers family: 4 (5) slots over {SecMarker M, skipAfter:M, plain} with the label declared any number of times and a logging-phase rule at the end; each scenario is replayed on the real library; non-trivial = at least one rule fires in the specification"
+	run.Rule = "TLC enumerates every rule list of N slots over the flow-control templates (plain, skip:1/2, skipAfter:M, SecMarker M, allow, allow:phase, allow:request, deny, deny+skip:1, deny+skipAfter:M; each optionally a chain) x phases x every subset of rules/chain links made to match x engine mode, plus the modes family (ctl:ruleEngine=DetectionOnly / On / Off in the middle of a phase next to allow, allow:phase and deny) and the markers family: 4 (5) slots over {SecMarker M, skipAfter:M, plain} with the label declared any number of times and a logging-phase rule at the end; each scenario is replayed on the real library; non-trivial = at least one rule fires in the specification"
 	run.Exhaustive = true
 	run.Assume("TLC 1.8.0 explores the bounded Engine_MC instance completely")
 	run.Assume("scenario rendering (harness/eng/render.go) writes the structured rule description in SecLang as documented")
@@ -20,6 +20,18 @@ func C08(run *vf.Run) {
 	eng.ReplayFamily(run, eng.FamilyOpts{
 		Name:    "flow",
 		CfgText: engineCfg("flow", n, 1, phases, `{"On", "DetectionOnly"}`),
+		Proj:    eng.ProjOpts{},
+		Timeout: vf.Pick(run, 10*time.Minute, 60*time.Minute),
+		Workers: 3,
+		Slices:  6,
+	})
+	if run.NumViolations() > 0 {
+		return
+	}
+	// the engine mode switched in the middle of a phase next to allow / deny
+	eng.ReplayFamily(run, eng.FamilyOpts{
+		Name:    "modes",
+		CfgText: engineCfg("modes", vf.Pick(run, 2, 3), 0, `{1, 5}`, `{"On", "DetectionOnly"}`),
 		Proj:    eng.ProjOpts{},
 		Timeout: vf.Pick(run, 10*time.Minute, 60*time.Minute),
 		Workers: 3,
